@@ -140,7 +140,8 @@ Theorem C16_data_arms_ack :
 Proof. exact data_arms_ack. Qed.
 Print Assumptions C16_data_arms_ack.
 
-(* BOUNDED RETRANSMISSION.  If the oldest queued message p has been transmitted p_att >= 1 times and no
+(* BOUNDED RETRANSMISSION on an abstract schedule (the statement for the runner's own schedule is
+   C16_dead_under_runner).  If the oldest queued message p has been transmitted p_att >= 1 times and no
    acknowledgement arrives, then MaxRetries - p_att + 1 Ticks — the first at or after its deadline, the
    following ones at least rtoMax apart — are enough for the dead callback to fire (possibly earlier
    because of another message).  With C16_window (attempts <= MaxRetries, one transmission per attempt)
@@ -331,3 +332,50 @@ Theorem C16_runner_reaches_zlb :
   t1 + 50 <= t2 <= Z.max d (t1 + 50) /\ c_zlb c' = Some d.
 Proof. exact runner_reaches_zlb. Qed.
 Print Assumptions C16_runner_reaches_zlb.
+
+(* DEAD UNDER THE RUNNER'S OWN SCHEDULE (runner.go loop = runner_next).  [runner_dead f g c t fuel] runs the loop:
+   Tick at t; if not dead, anything that leaves the queue head alone may happen ([g k]: submissions with or
+   without write faults, duplicates, messages acknowledging nothing new — see C16_runner_interference), then the
+   next Tick at runner_next ret t.  If the queue head p is in flight (1 <= attempts <= MaxRetries) and no
+   acknowledgement for it arrives, the dead callback fires at some Tick of that schedule, at a time
+       td <= max t (deadline p + 50) + (MaxRetries - attempts p) * (max rtoMax 50 + 50)
+   (fuel only has to cover that span at the loop's minimum pace of 50 ms).  No spacing assumption: the Ticks
+   are exactly those the runner produces (back-off deadlines rtoInit<<k capped by rtoMax, ZLB deadlines, the 50 ms
+   floor).  Together with C16_no_stranded_message (a non-empty queue always has such a head, for every write-fault
+   pattern) and C16_head_delivery/ack_progress + C16_reachable_inv: delivered and dequeued, or dead by td. *)
+Theorem C16_dead_under_runner :
+  forall f g, (forall k, keeps_head (g k)) ->
+  forall fuel c t p r,
+  c_q c = p :: r -> 1 <= p_att p <= f_maxr f ->
+  Z.max t (p_dl p + 50) + (f_maxr f - p_att p) * rstep f - t < Z.of_nat fuel * 50 ->
+  exists td, runner_dead f g c t fuel = Some td /\
+             t <= td <= Z.max t (p_dl p + 50) + (f_maxr f - p_att p) * rstep f.
+Proof. exact dead_under_runner. Qed.
+Print Assumptions C16_dead_under_runner.
+
+(* admissible interference: a submission with any write fault; an inbound message whose Nr does not acknowledge the head *)
+Theorem C16_runner_interference :
+  (forall f body sid now fj, keeps_head (fun c => fst (fst (send_session f c body sid now fj)))) /\
+  (forall f ns nr now fj c p r, c_q c = p :: r -> 1 <= p_att p -> seq_less (p_ns p) nr = false ->
+     exists r', c_q (fst (fst (fst (recv f c ns nr now fj)))) = p :: r').
+Proof. split; [exact submit_keeps_head|exact recv_keeps_head]. Qed.
+Print Assumptions C16_runner_interference.
+
+(* non-vacuity: RTO 100/400, MaxRetries 3, one message sent at 0: the runner's own Ticks are at 100, 300, 700
+   (not rtoMax apart) and the third declares dead, with or without a submission between every two Ticks *)
+Example C16_dead_under_runner_nonvacuous :
+  runner_dead ex_conf (fun _ c => c) ex_chan 100 30 = Some 700 /\
+  runner_dead ex_conf (fun k c => fst (fst (send_session ex_conf c (Z.of_nat k) 0 0 None))) ex_chan 100 30 = Some 700.
+Proof. exact runner_dead_example. Qed.
+Print Assumptions C16_dead_under_runner_nonvacuous.
+
+(* every state reached by an honest run (any write faults) satisfies the pair invariant the progress theorems
+   C16_head_delivery_progress / C16_head_ack_progress are conditional on *)
+Theorem C16_reachable_inv :
+  forall ai am ar az aw bi bm br bz bw oa ob evs,
+  honest evs = true ->
+  let s := run false (init_sys (ai, am, ar, az, aw) (bi, bm, br, bz, bw) oa ob) evs in
+  Z.of_nat (length (e_sub (s_a s))) < 32768 -> Z.of_nat (length (e_sub (s_b s))) < 32768 ->
+  dir_inv oa (s_a s) (s_b s) /\ dir_inv ob (s_b s) (s_a s).
+Proof. exact reachable_inv. Qed.
+Print Assumptions C16_reachable_inv.
